@@ -110,11 +110,12 @@ theorem drawCell_rel (c : DrawCfg) (s : Scr) (x y : Int) : ScrRel s (s.drawCell 
     · -- bottom-right corner trick: paint, mark the neighbour dirty, repaint it
       simp only
       have h1 := paint_rel c s x y
+      generalize Scr.cornerPx (s.paint c x y).1 x y = px
       have h2 : ScrRel (s.paint c x y).1
-          { (s.paint c x y).1 with cy := y, cx := x - 1, cells := (s.paint c x y).1.cells.setDirty (x - 1) y true } :=
-        ScrRel.setDirty _ _ (x - 1) y true rfl rfl rfl rfl rfl rfl ⟨rfl, rfl, rfl, rfl⟩
+          { (s.paint c x y).1 with cy := y, cx := x - 1, cells := (s.paint c x y).1.cells.setDirty px y true } :=
+        ScrRel.setDirty _ _ px y true rfl rfl rfl rfl rfl rfl ⟨rfl, rfl, rfl, rfl⟩
       have h3 := drawCellPlain_rel c
-        { (s.paint c x y).1 with cy := y, cx := x - 1, cells := (s.paint c x y).1.cells.setDirty (x - 1) y true } (x - 1) y
+        { (s.paint c x y).1 with cy := y, cx := x - 1, cells := (s.paint c x y).1.cells.setDirty px y true } px y
       refine ((h1.trans h2).trans h3).trans ?_
       exact ScrRel.of_eq _ _ rfl rfl rfl rfl rfl rfl ⟨rfl, rfl, rfl, rfl⟩
     · exact drawCellPlain_rel c s x y
